@@ -60,6 +60,7 @@ RULEDOC = {
  'SA-PAIR.link_inode': 'linking a record and registering it with its inode happen together',
  'SA-PAIR.offset_cache': 'every mutation of children is followed by the offset recomputation',
  'SA-PAIR.removal_cache': 'removals clear the path lookup caches',
+ 'SA-PAIR.rr_ce_slot': 'every Rock Ridge record linked into a directory is handed to _update_rr_ce_entry (gets its continuation slot)',
  'SA-PAIR.rr_children': 'children and rr_children are inserted into / removed from together',
  'SA-PAIR.rr_placement': 'every SUSP entry stored in a record or continuation area is accounted with the length() of its own class',
  'SA-PAIR.stream': 'the logical stream offset moves with the bytes consumed on every path',
@@ -93,6 +94,7 @@ RULEDOC = {
  'SA-STR': 'abstract interpretation of the name-mangling helpers: every derived identifier is accepted by the acceptance predicate of its level',
  'SA-STR.tool': 'collision renumbering in genisoimage returns legal names',
  'SA-SYM': 'a field emitted from attribute A by record() is parsed back into A by parse()',
+ 'SA-SYM.conv': 'a value converted by parse() (uuid bytes / bytes_le, decode(codec)) is converted back by the inverse in record()',
  'SA-TAG': 'UDF tag discipline: identifier given to new() = identifier of the standard = identifier under which parse receives the tag; record() is tag.record(B)+B for one B; moving a descriptor updates its tag location',
  'SA-TERM': 'every loop reachable from open() matches a progress idiom with a positive lower bound',
  'SA-UNITS': 'GMT offsets are stored in the unit the standard prescribes for that field',
